@@ -96,7 +96,7 @@ def check_case(case):
     return core.Outcome(bool(effects & NONTRIVIAL_EFFECTS), sorted(labels))
 
 
-SHARD_SYN = [("default", None, None)] * 5 + [("blockbr", None, None), ("parens", None, None), ("latex", None, None)] + [
+SHARD_SYN = [("default", None, None)] * 3 + [("prefixvar", None, None), ("dollar", None, None)] + [("blockbr", None, None), ("parens", None, None), ("latex", None, None)] + [
     ("php", None, None), ("erb", None, None), ("brackets", None, None), ("three", None, None), ("ops", None, None),
     ("default", "#", "##"), ("erb", "%%", "##"), ("default", None, None),
 ]
